@@ -37,3 +37,4 @@ if git -C /repo apply --exclude='out/*' $PATCH; then
   git -C /repo checkout -- .
 fi
 git -C /repo status --short | head -3
+git -C /verif checkout -- evidence 2>/dev/null
